@@ -31,8 +31,22 @@ MirroredOk(base, mir) ==
           Cardinality({j \in 1..Len(mir) : MirrorMatch(base[i], mir[j])}) =
           Cardinality({j \in 1..Len(base) : MirrorMatch(base[i], <<base[j][1], base[j][2], base[j][3], base[j][4], base[j][5], 0 - base[j][6], 0 - base[j][7]>>)})
 
+\* ---- the block finder alone: the returned half-open ranges are exactly the maximal runs of the occupancy
+\* on the ring of 256 wires (Ring.tla's requirement, written constructively)
+N == 256
+RunFrom(S, w) == LET len == CHOOSE j \in 1..N : (j = N \/ (w + j) % N \notin S) /\ \A i \in 0..(j - 1) : (w + i) % N \in S
+                 IN {(w + i) % N : i \in 0..(len - 1)}
+MaxRuns(S) == IF S = 0..(N - 1) THEN {S} ELSE {RunFrom(S, w) : w \in {w \in S : (w + N - 1) % N \notin S}}
+RangeMembers(rg) == IF rg[1] < rg[2] THEN rg[1]..(rg[2] - 1) ELSE (rg[1]..(N - 1)) \cup (0..(rg[2] - 1))
+RangesOk(r) ==
+  LET S == {r.occ[i] : i \in 1..Len(r.occ)} IN
+  /\ \A k \in 1..Len(r.ranges) : r.ranges[k][1] \in 0..(N - 1) /\ r.ranges[k][2] \in 1..N /\ r.ranges[k][1] # r.ranges[k][2]
+  /\ Len(r.ranges) = Cardinality(MaxRuns(S))
+  /\ {RangeMembers(r.ranges[k]) : k \in 1..Len(r.ranges)} = MaxRuns(S)
+
 Faults(r) ==
   IF r.verdict # "ok" THEN << <<"crash", 0>> >>
+  ELSE IF r.fam = "ranges" THEN (IF RangesOk(r) THEN <<>> ELSE << <<"blocks", 0>> >>)
   ELSE SelectSeq([n \in 1..Len(r.rot) |-> IF RotatedOk(r.base, r.rot[n][2], r.rot[n][1]) THEN <<"fine", 0>> ELSE <<"rotation", r.rot[n][1]>>],
                  LAMBDA x : x[1] # "fine")
        \o (IF MirroredOk(r.base, r.mirror) THEN <<>> ELSE << <<"mirror", 0>> >>)
